@@ -140,7 +140,8 @@ fn main() {
                         let msk = Mutex::new(msk);
                         let mut out = vec![]; let mut errs = vec![];
                         for k in 0..n {
-                            let kk = if stress { k + ti } else { [0, 1, 2, 3, 4, 6][k % 6] };
+                            // cheap calls (encaps, PKE, header) dominate; key generation / rekey / recaps grow the master key and run every 20th call
+                            let kk = if stress { k + ti } else if k % 20 == 19 { [3, 4, 6][(k / 20) % 3] } else { [0, 1, 2][k % 3] };
                             // own master key per thread for the mutating calls (distinct key objects), shared instance
                             if let Err(e) = vals_of_call(&cc, &msk, &mpk, kk, &mut out) { errs.push(e); }
                         }
@@ -149,9 +150,9 @@ fn main() {
                     hs.push(rx);
                 }
                 for (ti, rx) in hs.into_iter().enumerate() {
-                    match rx.recv_timeout(Duration::from_secs(120)) {
+                    match rx.recv_timeout(Duration::from_secs(120 + (n as u64) / 50)) {
                         Ok((out, errs)) => { for l in out { println!("{l}"); } for e in errs { println!("FAIL call in thread {ti}: {e}"); } println!("OK thread {ti} finished {n} calls"); }
-                        Err(_) => println!("FAIL thread {ti} did not finish within 120 s (a call blocked forever?)"),
+                        Err(_) => println!("FAIL thread {ti} did not finish within {} s (a call blocked forever?)", 120 + n / 50),
                     }
                 }
             }
